@@ -145,11 +145,23 @@ class Histories(RuleBasedStateMachine):
         i = self.last_on_client
         case = self.cases[i]
         self.trace.append(("summary", "bootstrap", i))
-        try:
-            df = self.client.get_national_summary_votes_estimates(None, 0, list(case["req"]["alphas"]))
-            key = ("ok", jhash(df.to_dict("list")))
-        except Exception as e:
-            key = ("exc", type(e).__name__, str(e)[:200])
+        def once():
+            try:
+                df = self.client.get_national_summary_votes_estimates(None, 0, list(case["req"]["alphas"]) + [0.99])
+                return ("ok", jhash(df.to_dict("list")))
+            except Exception as e:
+                return ("exc", type(e).__name__, str(e)[:200])
+
+        key = once()
+        again = once()  # the same call with equal arguments, immediately afterwards, on the same model state
+        if again != key and not self.failed:
+            self.failed = True
+            ctx.violation(
+                "summary_differs",
+                f"two consecutive national summary calls with equal arguments after request {i}: {key} then {again}; history {self.trace}",
+                {"case": case, "history": [list(t) for t in self.trace], "pool": self.cases, "index": i, "shared": self.shared},
+                sig="summary_repeat",
+            )
         if i not in self.first_summary:
             self.first_summary[i] = key
         elif key != self.first_summary[i] and not self.failed:
@@ -160,6 +172,11 @@ class Histories(RuleBasedStateMachine):
                 {"case": case, "history": [list(t) for t in self.trace], "pool": self.cases, "index": i},
                 sig="summary",
             )
+
+    @precondition(lambda self: self.last_on_client is not None and self.cases[self.last_on_client]["req"]["pi"] == "bootstrap")
+    @rule()
+    def summary_again(self):
+        self.summary()
 
     def teardown(self):
         ctx = Histories.ctx
@@ -304,11 +321,17 @@ def replay(case, ctx):
         for how, pi, i in case["history"]:
             c = pool[i]
             if how == "summary":
-                try:
-                    df = client.get_national_summary_votes_estimates(None, 0, list(c["req"]["alphas"]))
-                    key = ("ok", jhash(df.to_dict("list")))
-                except Exception as e:
-                    key = ("exc", type(e).__name__, str(e)[:200])
+                keys2 = []
+                for _ in range(2):
+                    try:
+                        df = client.get_national_summary_votes_estimates(None, 0, list(c["req"]["alphas"]) + [0.99])
+                        keys2.append(("ok", jhash(df.to_dict("list"))))
+                    except Exception as e:
+                        keys2.append(("exc", type(e).__name__, str(e)[:200]))
+                key = keys2[0]
+                if keys2[0] != keys2[1]:
+                    ctx.violation("summary_differs", f"replayed history: consecutive summaries {keys2}", case, sig="summary_repeat")
+                    return
                 if i in first_summary and key != first_summary[i]:
                     ctx.violation("summary_differs", f"replayed history: {first_summary[i]} vs {key}", case, sig="summary")
                     return
